@@ -15,7 +15,7 @@ REPO=${VERIF_REPO:-/repo}
 MODFLAG=
 if [ "$REPO" != /repo ]; then
   # scratch copy of the repository (seedtest.sh): own binaries, own go.mod with the replace redirected
-  BIN=$VERIF/.bin-alt
+  BIN=$VERIF/.bin-alt${VERIF_ALT:-}
   mkdir -p "$BIN"
   sed -e "s|=> /repo|=> $REPO|" -e "s|=> ../fakefaiss|=> $VERIF/fakefaiss|" "$VERIF/harness/go.mod" > "$BIN/go.mod"
   cp "$VERIF/harness/go.sum" "$BIN/go.sum"
